@@ -103,7 +103,7 @@ struct DtxSim {
     int ret = S.enc.encode(pcm.data(), frame, max_bytes, fmt, pkt);
     int rret = ref_enc.alive() ? ref_enc.encode(pcm.data(), frame, max_bytes, fmt, rpkt) : -1;
     run.ev((uint64_t)ret); run.evb(pkt.data(), pkt.size());
-    if (ret <= 0) { if (ret == OPUS_INTERNAL_ERROR) REPORT(run, prop, "enc_internal_error", "frame=%d", frame); S.pos += frame; S.t48 += d48; return; }
+    if (ret <= 0) { S.pos += frame; S.t48 += d48; return; }   // (an encoder failure is C02 / C05's subject)
     run.api_ok++; S.frames_encoded++;
     opus_int32 in_dtx = -1; S.enc.get(OPUS_GET_IN_DTX_REQUEST, &in_dtx);
     run.ev((uint64_t)in_dtx);
@@ -173,10 +173,8 @@ struct DtxSim {
       std::vector<float> pg, pp, pr; bool fin = true, can = true;
       int rg = lost ? G.decode(nullptr, 0, out, 0, FMT_F32, &pg, nullptr, &can, &fin) : G.decode(pkt.data(), (int)pkt.size(), out, 0, FMT_F32, &pg, nullptr, &can, &fin);
       if (rg != out) REPORT(run, prop, "receiver_G_wrong_duration", "got %d want %d (tiny=%d lost=%d)", rg, out, (int)tiny, (int)lost);
-      if (!fin) REPORT(run, prop, "receiver_nonfinite", "G");
       int rp = (tiny || lost) ? P.decode(nullptr, 0, out, 0, FMT_F32, &pp, nullptr, &can, &fin) : P.decode(pkt.data(), (int)pkt.size(), out, 0, FMT_F32, &pp, nullptr, &can, &fin);
       if (rp != out) REPORT(run, prop, "receiver_P_wrong_duration", "got %d want %d (tiny=%d)", rp, out, (int)tiny);
-      if (!fin) REPORT(run, prop, "receiver_nonfinite", "P");
       if (rret > 0) { int rr = R.decode(rpkt.data(), (int)rpkt.size(), out, 0, FMT_F32, &pr); if (rr != out) REPORT(run, prop, "receiver_R_wrong_duration", "got %d want %d", rr, out); }
       run.api_ok += 2;
       if (lost) { run.count("rx_lost"); lost_recent48 = t0; } else if (lost_recent48 >= 0 && t0 >= lost_recent48 + 1000 * MS) lost_recent48 = -1;
